@@ -229,6 +229,12 @@ class _Neighbours:
         out = [{"ifindex": 1, "dst": "172.31.0.1", "lladdr": "02:42:ac:1f:00:01", "state": NUD_REACHABLE}]
         for ip, n in self._k.view_neigh().items():
             out.append({"ifindex": n["ifindex"], "dst": ip, "lladdr": n.get("mac"), "state": n["state"]})
+        # A dump taken by a thread that does not hold the controller's lock is
+        # followed by a window in which the other thread may run (see
+        # World.dump_gap); the caller goes on with the snapshot taken before it.
+        hook = getattr(self._k, "unlocked_dump_hook", None)
+        if hook is not None:
+            hook()
         return out
 
     def summary(self):
